@@ -357,6 +357,54 @@ Section Cmp.
       eapply FOP_impl; [|exact Hs]. cbn beta. intros x y H E. apply H. now apply Z.eqb_eq.
   Qed.
 
+  (* the weaker specification for callbacks that are not strict weak orders (natural-order keys) *)
+  Lemma adjacent_by_spec {A} (lt : A -> A -> bool) l :
+    adjacent_by lt l = true <-> (forall pre x y post, l = pre ++ x :: y :: post -> lt y x = false).
+  Proof.
+    induction l as [|a t IH].
+    - split; [intros _ pre x y post E; destruct pre; discriminate|reflexivity].
+    - cbn [adjacent_by]. rewrite andb_true_iff, IH. split.
+      + intros [H1 H2] pre x y post E. destruct pre as [|p pre]; cbn [app] in E.
+        * injection E as E1 E2. subst a t. now apply negb_true_iff.
+        * injection E as E1 E2. subst p. eapply H2; eauto.
+      + intros H. split.
+        * destruct t as [|y t']; [reflexivity|]. apply negb_true_iff. apply (H [] a y t'). reflexivity.
+        * intros pre x y post E. apply (H (a :: pre) x y post). cbn [app]. now rewrite E.
+  Qed.
+  Definition sort_spec_adj (ks : list (bytes * sflag)) (inp out : list record) : Prop :=
+    exists gs,
+      Permutation gs (dkeys (sort_keyf ks) inp)
+      /\ out = sort_output ks inp gs
+      /\ (forall pre g h post, gs = pre ++ g :: h :: post ->
+           less infer nat_less (map snd ks) (head_vals ks inp h) (head_vals ks inp g) = false).
+  Lemma check_sort_adj_sound ks inp out : check_sort_adj infer nat_less ks inp out = true -> sort_spec_adj ks inp out.
+  Proof.
+    unfold check_sort_adj. cbn zeta. rewrite !andb_true_iff. intros [[[H1 H2] H3] H4].
+    exists (dkeys (sort_keyf ks) out). split; [|split].
+    - symmetry. apply NoDup_Permutation_bis.
+      + apply dkeys_NoDup.
+      + apply Nat.eqb_eq in H2. lia.
+      + intros g Hg. rewrite forallb_forall in H3. apply mem_In. auto.
+    - destruct (records_eqb_spec out (sort_output ks inp (dkeys (sort_keyf ks) out))); congruence.
+    - now apply adjacent_by_spec.
+  Qed.
+  Lemma sort_spec_adj_permutation ks inp out : sort_spec_adj ks inp out -> Permutation out inp.
+  Proof. intros (gs & Hp & -> & _). now apply sort_output_perm. Qed.
+  (* a strict-weak-order callback: the full specification implies the weak one *)
+  Lemma FOP_adjacent {A} (P : A -> A -> Prop) l : ForallOrdPairs P l -> forall pre x y post, l = pre ++ x :: y :: post -> P x y.
+  Proof.
+    induction 1 as [|a t Ha Ht IH]; intros pre x y post E.
+    - destruct pre; discriminate.
+    - destruct pre as [|p pre]; cbn [app] in E; injection E as E1 E2; subst.
+      + rewrite Forall_forall in Ha. apply Ha. cbn. auto.
+      + eapply IH; reflexivity.
+  Qed.
+  Lemma sort_spec_implies_adj ks inp out : sort_spec ks inp out -> sort_spec_adj ks inp out.
+  Proof.
+    intros (gs & Hp & Ho & Hord & _). exists gs. split; [exact Hp|split; [exact Ho|]].
+    intros pre g h post E. exact (FOP_adjacent _ gs Hord pre g h post E).
+  Qed.
+
   Lemma sort_spec_permutation ks inp out : sort_spec ks inp out -> Permutation out inp.
   Proof. intros (gs & Hp & -> & _). now apply sort_output_perm. Qed.
 
@@ -429,6 +477,16 @@ Lemma num_not_transitive_witness :
   /\ flag_cmp dinfer natsort_less Fnf (B "9007199254740992.0") (B "9007199254740993") = 0
   /\ flag_cmp dinfer natsort_less Fnf (B "9007199254740992") (B "9007199254740993") <> 0.
 Proof. vm_compute. repeat split; try reflexivity. discriminate. Qed.
+
+Lemma nat_cycle_witness :
+  flag_cmp dinfer natsort_less Ft (B "9") (B "10") < 0 /\ flag_cmp dinfer natsort_less Ft (B "10") (B "100000000000000000000") < 0
+  /\ flag_cmp dinfer natsort_less Ft (B "100000000000000000000") (B "9") < 0.
+Proof. vm_compute. repeat split; reflexivity. Qed.
+Lemma nat_chain_witness :
+  less dinfer natsort_less [Ft; Ff] [B "01"; B "z"] [B "1"; B "y"] = false /\ less dinfer natsort_less [Ft; Ff] [B "1"; B "y"] [B "01"; B "z"] = false
+  /\ less dinfer natsort_less [Ft; Ff] [B "01"; B "z"] [B "1"; B "z"] = false /\ less dinfer natsort_less [Ft; Ff] [B "1"; B "z"] [B "01"; B "z"] = false
+  /\ less dinfer natsort_less [Ft; Ff] [B "1"; B "y"] [B "1"; B "z"] = true.
+Proof. vm_compute. repeat split; reflexivity. Qed.
 
 Inductive keys_ascending : record -> Prop :=
 | ka_nil : keys_ascending []
